@@ -55,14 +55,16 @@ impl Parser {
         let url = parse_string.into();
         if url.is_empty() {
             caret.attribute.set_is_underlined(false);
-            let mut p = self.hyper_links.pop().unwrap();
-            let cp = caret.get_position();
-            if cp.y == p.position.y {
-                p.length = cp.x - p.position.x;
-            } else {
-                p.length = buf.terminal_state.get_width() - p.position.x + (cp.y - p.position.y) * buf.terminal_state.get_width() + p.position.x;
+            // a closing `OSC 8 ; ;` without an open hyperlink is ignored
+            if let Some(mut p) = self.hyper_links.pop() {
+                let cp = caret.get_position();
+                if cp.y == p.position.y {
+                    p.length = cp.x - p.position.x;
+                } else {
+                    p.length = buf.terminal_state.get_width() - p.position.x + (cp.y - p.position.y) * buf.terminal_state.get_width() + p.position.x;
+                }
+                buf.layers[0].add_hyperlink(p);
             }
-            buf.layers[0].add_hyperlink(p);
         } else {
             caret.attribute.set_is_underlined(true);
             self.hyper_links.push(crate::HyperLink {
